@@ -166,8 +166,9 @@ def check_property(pid, tier, seed):
         if nat is None or nat.gen is None:
             continue
         limit = getattr(prop, "NATIVE_LIMIT_S", {}).get(tier) or (40 if tier == "quick" else 600)
-        res = native_batch(q, n_cases, seed, limit, case_timeout=getattr(prop, "CASE_TIMEOUT", 60), known=known)
-        entry = {"function": q, "bounded": True, "bound": nat.bound or f"{n_cases} generated inputs (seed {seed})",
+        n_q = n_cases if os.environ.get("VERIF_NATIVE_CASES") else (getattr(prop, "NATIVE_CASES_BY_FUNCTION", {}).get(q, {}).get(tier) or n_cases)  # cheap run-time contracts may take more cases
+        res = native_batch(q, n_q, seed, limit, case_timeout=getattr(prop, "CASE_TIMEOUT", 60), known=known)
+        entry = {"function": q, "bounded": True, "bound": nat.bound or f"{n_q} generated inputs (seed {seed})",
                  "evaluations": res.get("evaluations", 0), "distinct": res.get("distinct", 0), "failures": len(res.get("failures", [])), "samples": res.get("samples", [])[:2]}
         if res.get("ok") is False and not res.get("failures"):
             res["ok"] = True
